@@ -491,18 +491,24 @@ impl FileSystem for OverlayFs {
 
         match data.real_handle {
             None => Err(Error::from_raw_os_error(libc::ENOENT)),
-            Some(ref hd) => hd.layer.write(
-                ctx,
-                hd.inode,
-                hd.handle.load(Ordering::Relaxed),
-                r,
-                size,
-                offset,
-                lock_owner,
-                delayed_write,
-                flags,
-                fuse_flags,
-            ),
+            Some(ref hd) => {
+                if !hd.in_upper_layer {
+                    // Not copied up (the handle was not opened for writing): lower layers are read-only.
+                    return Err(Error::from_raw_os_error(libc::EROFS));
+                }
+                hd.layer.write(
+                    ctx,
+                    hd.inode,
+                    hd.handle.load(Ordering::Relaxed),
+                    r,
+                    size,
+                    offset,
+                    lock_owner,
+                    delayed_write,
+                    flags,
+                    fuse_flags,
+                )
+            }
         }
     }
 
